@@ -58,3 +58,12 @@ func (c *cachedDocs) simUpdateSizeLOCKED() {
 	}
 	atomic.StoreUint64(&c.size, uint64(sizeInBytes))
 }
+
+// simSortedFields returns the fields in sorted order. The un-inverting
+// cache waits for its fields one after the other, and the order in which a
+// search names them comes from iterating the request's map of facets.
+func simSortedFields(fields []string) []string {
+	rv := append([]string(nil), fields...)
+	sort.Strings(rv)
+	return rv
+}
